@@ -114,17 +114,18 @@ class ListWrapper(typing.MutableSequence[T]):
         try:
             for value in old:
                 self._remove(value)
-            for value in values:
+            # Place each value as soon as its hook has run, so that a value
+            # given twice is found (and moved) by its second _add.
+            for n, value in enumerate(values):
                 self._add(value)
-        except BaseException:
-            self._data = [x for x in self._data if x not in marks]
-            raise
-        if contiguous:
-            position = self._data.index(marks[0])
-            self._data[position : position + 1] = values
-        else:
-            for mark, value in zip(marks, values):
-                self._data[self._data.index(mark)] = value
+                if contiguous:
+                    self._data.insert(self._data.index(marks[0]), value)
+                else:
+                    self._data[self._data.index(marks[n])] = value
+        finally:
+            self._data = [
+                x for x in self._data if not any(x is m for m in marks)
+            ]
 
     @typing.overload
     def __delitem__(self, i: int) -> None:
